@@ -21,6 +21,7 @@ import GambitV.Gen.PyParams
 import GambitV.Gen.PyCluster
 import GambitV.Gen.PyGetitem
 import GambitV.Gen.PyIo
+import GambitV.Gen.PyGetattr
 import GambitV.Gen.PySigListGetitem
 import GambitV.Model.Params
 import GambitV.Model.Bulk
@@ -261,6 +262,42 @@ def getitemList (sigs : List (List Nat)) (ix : Py.IdxVal) (real : String) : Opti
     | .raised e => "err:" ++ e.name
     | .fuelOut => "err:fuel"
   cmp "AdvancedIndexingMixin.__getitem__ (SignatureList)" Gen.siglist_getitem.untranslatable gen real
+
+/-- text of a hex token (`-` = empty) -/
+def textOfHex (h : String) : Option (List Char) := do
+  let bs ← parseHex h
+  pure (String.fromUTF8! (ByteArray.mk bs.toArray)).toList
+
+/-- an object graph as the harness writes it: `N` = None, `T<hex>` = a value shown as text, `R(name=obj,…)` = a record -/
+partial def parseObj : List Char → Option (Py.Obj × List Char)
+  | 'N' :: rest => some (.none, rest)
+  | 'T' :: rest =>
+    let h := rest.takeWhile (fun c => c.isAlphanum || c == '-')
+    (textOfHex (String.ofList h)).map (fun t => (Py.Obj.text t, rest.drop h.length))
+  | 'R' :: '(' :: rest => fields rest []
+  | _ => none
+where
+  fields : List Char → List (List Char × Py.Obj) → Option (Py.Obj × List Char)
+    | ')' :: rest, acc => some (.record acc.reverse, rest)
+    | ',' :: rest, acc => fields rest acc
+    | cs, acc =>
+      let name := cs.takeWhile (· != '=')
+      match cs.drop name.length with
+      | '=' :: rest => match parseObj rest with
+        | some (o, rest') => fields rest' ((name, o) :: acc)
+        | none => none
+      | _ => none
+
+def objStr : Py.Obj → String
+  | .none => "N"
+  | .text t => "T" ++ hexOf (String.ofList t).toUTF8.toList
+  | .record _ => "R"
+
+/-- `getattr_nested` generated from the current source against the real function on the real result item -/
+def getattrNested (obj path pn real : String) : Option String := do
+  let (o, _) ← parseObj obj.toList
+  let p ← textOfHex path
+  pure ((cmp "getattr_nested" Gen.getattr_nested.untranslatable (resStr objStr (Gen.getattr_nested o p (pn == "1"))) real).getD "ok")
 
 /-- `calc_signature` (default accumulator) on a list of sequences: the definition generated from the current sources of `calc_signature`,
 `accumulate_kmers`, `KmerMatch.kmer_index`, `find_kmers`, … against the real signature -/
